@@ -22,15 +22,41 @@ type c06Case struct {
 	Ints bool  `json:"ints,omitempty"` // full grid without the half-integers
 }
 
+// k values every grid carries in addition (audit round 2b): -0.0 (an integer: floor(-0) = 0, not "negative"),
+// and the floats next to an interior integer on either side (floor must not be a rounding or a fudge).
+// c06HugeKs: |k| far beyond the support, up to where the float64 -> int conversion stops being defined (2^63)
+// and beyond (D22: both CDFs returned 0 there).
+func c06NearKs(mid int) []float64 {
+	return []float64{math.Copysign(0, -1), math.Nextafter(float64(mid), math.Inf(-1)), math.Nextafter(float64(mid), math.Inf(1))}
+}
+
+var c06HugeKs = []float64{math.Ldexp(1, 62), math.Ldexp(1, 63), 1e19, 1e300, -1e19}
+
 func c06Grid(lo, hi int, intsOnly bool) []float64 {
+	// the near-integer values are placed next to grid values with the same floor, so that the comparator's
+	// "same floor, same observed bits as the item just compared" shortcut applies when the library is right
+	mid := (lo + hi + 1) / 2
 	var ks []float64
 	for k := lo - 2; k <= hi+2; k++ {
 		ks = append(ks, float64(k))
 		if !intsOnly {
 			ks = append(ks, float64(k)+0.5)
 		}
+		if k == 0 {
+			ks = append(ks, math.Copysign(0, -1))
+		}
+		if k == mid-1 {
+			ks = append(ks, math.Nextafter(float64(mid), math.Inf(-1)))
+		}
+		if k == mid {
+			ks = append(ks, math.Nextafter(float64(mid), math.Inf(1)))
+		}
+	}
+	if lo > 2 {
+		ks = append(ks, math.Copysign(0, -1))
 	}
 	ks = append(ks, math.Nextafter(float64(lo), math.Inf(-1)), math.Nextafter(float64(hi+1), math.Inf(-1)))
+	ks = append(ks, c06HugeKs...)
 	if intsOnly {
 		ks = append(ks, float64(lo)+0.5, float64(hi)-0.25)
 	}
@@ -46,7 +72,8 @@ func c06Run(raw []byte) (*Line, error) {
 		return nil, fmt.Errorf("bad N")
 	}
 	for _, k := range c.Ks {
-		if math.IsNaN(float64(k)) || math.Abs(float64(k)) > 1e9 {
+		// finite k of any size (D22: CDF(k >= 2^63) was 0); NaN and +-Inf are outside the comparator
+		if math.IsNaN(float64(k)) || math.IsInf(float64(k), 0) {
 			return nil, fmt.Errorf("bad k")
 		}
 	}
@@ -142,6 +169,8 @@ func c06SampleKs(rng *rand.Rand, lo, hi int, mean, sd float64, cnt int) []F64 {
 	for _, dk := range []int{-1, 0, 1, 2} {
 		ks = append(ks, float64(m+dk))
 	}
+	ks = append(ks, c06NearKs(m)...)
+	ks = append(ks, c06HugeKs...)
 	for i := 0; i < cnt; i++ {
 		var k int
 		switch rng.Intn(3) {
@@ -231,6 +260,7 @@ func c06Gen(tier string, rng *rand.Rand, emit func(interface{})) {
 			ks := []float64{-1, 0, 1, float64(n - 1), float64(n), float64(n + 1)}
 			ks = around(around(ks, n/2), mode)
 			ks = around(ks, n/3)
+			ks = append(append(ks, c06NearKs(mode)...), c06HugeKs...)
 			emit(c06Case{Op: 0, N: n, P: F64(p), Ks: toF64s(ks)})
 		}
 	}
@@ -251,8 +281,26 @@ func c06Gen(tier string, rng *rand.Rand, emit func(interface{})) {
 			mode := (d + 1) * (k + 1) / (n + 2)
 			ks := []float64{float64(lo - 1), float64(lo), float64(lo + 1), float64(hi - 1), float64(hi), float64(hi + 1)}
 			ks = around(around(ks, mode), (lo+hi)/2)
+			ks = append(append(ks, c06NearKs(mode)...), c06HugeKs...)
 			emit(c06Case{Op: 1, N: n, K: k, D: d, Ks: toF64s(ks)})
 		}
+	}
+	// (b'') the top of the property's range, N = 1000, at its degenerate and extreme parameters
+	for _, kd := range [][2]int{{0, 0}, {1000, 1000}, {0, 1000}, {1000, 0}, {500, 500}, {1, 999}, {999, 1}, {1, 1}, {999, 999}, {1000, 500}, {500, 1000}} {
+		k, d := kd[0], kd[1]
+		lo := d + k - 1000
+		if lo < 0 {
+			lo = 0
+		}
+		hi := d
+		if k < hi {
+			hi = k
+		}
+		mean := float64(d) * float64(k) / 1000
+		emit(c06Case{Op: 1, N: 1000, K: k, D: d, Ks: c06SampleKs(rng, lo, hi, mean, math.Sqrt(mean*float64(1000-k)/1000), 12)})
+	}
+	for _, p := range []float64{0, 1, 0.5, 1.0 / 64, 63.0 / 64} {
+		emit(c06Case{Op: 0, N: 1000, P: F64(p), Ks: c06SampleKs(rng, 0, 1000, 1000*p, math.Sqrt(1000*p*(1-p)), 12)})
 	}
 	// (c) random larger N up to 1000
 	nb, nh := 24, 40
